@@ -71,6 +71,7 @@ func vfRunQueueSeq2(prefill int, ops []vfQOp) (string, string) {
 	q := NewUnAckQueue()
 	ref := &vfRefQ{}
 	scratch := &UnAckedStz{}
+	lastPushedId := 0
 	step := func(i int, op vfQOp) (string, string) {
 		before := append([]string(nil), ref.items...)
 		switch op.Op {
@@ -170,6 +171,15 @@ func vfRunQueueSeq2(prefill int, ops []vfQOp) (string, string) {
 			if q.Uslice[j].Id <= 0 {
 				return "ids:not-positive", fmt.Sprintf("step %d: id %d", i, q.Uslice[j].Id)
 			}
+		}
+		// ... in insertion order over the whole history: an entry pushed later never carries a number that an
+		// earlier entry (queued still, or popped long ago) already had or exceeded
+		if (op.Op == "push" || op.Op == "push-reuse") && len(q.Uslice) > 0 {
+			id := q.Uslice[len(q.Uslice)-1].Id
+			if id <= lastPushedId {
+				return "ids:not-increasing-in-insertion-order", fmt.Sprintf("step %d: the entry pushed now is numbered %d, an entry pushed earlier was numbered %d (queue before this push: %q)", i, id, lastPushedId, before)
+			}
+			lastPushedId = id
 		}
 		return "", ""
 	}
